@@ -3,11 +3,14 @@ use serde_json::Value;
 
 pub mod c01;
 pub mod c03;
+pub mod c04;
+pub mod c05;
 pub mod c06;
 pub mod c07;
 pub mod c12;
 pub mod stream;
 pub mod c13;
+pub mod c14;
 pub mod c15;
 
 pub struct PropDef {
@@ -23,11 +26,14 @@ pub fn registry() -> Vec<PropDef> {
         PropDef { meta: &c01::META_C01, run: c01::run_c01, replay: c01::replay_c01, health: c01::health_c01 },
         PropDef { meta: &c01::META_C02, run: c01::run_c02, replay: c01::replay_c02, health: c01::health_c02 },
         PropDef { meta: &c03::META, run: c03::run, replay: c03::replay, health: c03::health },
+        PropDef { meta: &c04::META, run: c04::run_all, replay: c04::replay, health: c04::health },
+        PropDef { meta: &c05::META, run: c05::run_all, replay: c05::replay, health: c05::health },
         PropDef { meta: &c06::META, run: c06::run, replay: c06::replay, health: c06::health },
         PropDef { meta: &c07::META, run: c07::run, replay: c07::replay, health: c07::health },
         PropDef { meta: &c12::META_C12, run: c12::run_c12, replay: c12::replay_c12, health: c12::health_c12 },
         PropDef { meta: &c12::META_C20, run: c12::run_c20, replay: c12::replay_c20, health: c12::health_c20 },
         PropDef { meta: &c13::META, run: c13::run, replay: c13::replay, health: c13::health },
+        PropDef { meta: &c14::META, run: c14::run_all, replay: c14::replay, health: c14::health },
         PropDef { meta: &c15::META, run: c15::run, replay: c15::replay, health: c15::health },
     ]
 }
